@@ -780,7 +780,8 @@ class ConfigInformation:
 
             def postprocess(self, stub, config: Config, values):
                 config.__xpm__._sealed = False
-                config.__xpm__._identifier = None
+                config.__xpm__._raw_identifier = None
+                config.__xpm__._full_identifier = None
 
         Unsealer(context, recurse_task=True)(self.pyobject)
 
